@@ -34,7 +34,7 @@ PROPS["C06"] = dict(
                "of every set of <=4 segments of a 6-byte stream are enumerated at 6 ISNs.",
     level_note="Trusted: the 40-line byte-map model; segments lie within 2^31 of the delivery point (streams <= 64 KiB) as the property assumes. An empty data notification is not a violation.",
     phases=[dict(name="exhaustive", harness="c06.cpp", flavor="asan", mode="exhaustive", cases=dict(quick=7546, thorough=7546)),
-            dict(name="random", harness="c06.cpp", flavor="asan", mode="random", cases=dict(quick=100000, thorough=800000))],
+            dict(name="random", harness="c06.cpp", flavor="asan", mode="random", cases=dict(quick=100000, thorough=300000))],
     rule="case = (stream bytes, ISN, multiset of segments (off,len), arrival order); distinct = distinct (ISN, ordered segment list); non-trivial = every history has >=1 segment "
          "and is checked after each packet; exhaustive part: |s|=6, all sets of <=4 distinct segments x all orders x 6 ISNs",
     floors=dict(any={"distinct": 10000, "exhaustive_sets": 7546, "br:history-wraps-2^32": 500, "br:slice-on-entry": 100, "br:slice-buffered": 100,
